@@ -17,7 +17,7 @@ def run(ctx):
         vlib.model_check(ctx, FAM, "Keystore.tla", "Keystore_unchecked.cfg", expect_violation="Conforms", timeout=600)
         ctx.exhaustive = True
     trace = os.path.join(ctx.work, "ks.ndjson")
-    rc, out = vlib.go_test(ctx, "aqua/accounts/keystore", "TestVerifKeystore$", env={"VERIF_OUT": trace, "VERIF_FILES": 3 if q else 60}, timeout=6000)
+    rc, out = vlib.go_test(ctx, "aqua/accounts/keystore", "TestVerifKeystore$", env={"VERIF_OUT": trace, "VERIF_FILES": 4 if q else 60}, timeout=6000)
     m = re.search(r"VERIF-STAT events=(\d+)", out)
     if rc != 0 or not m:
         raise vlib.Infra("keystore driver failed (rc=%d):\n%s" % (rc, out[-3000:]))
